@@ -128,6 +128,11 @@ def _ask(w, q):
                 if bb != keep:
                     return {"err": "args_mutated"}
                 return {"v": [[c.keyword, _canon(c.value)] for c in h.cards] + [_canon(np.asarray(t.data["coordinates"]).ravel()[:50])], "iter": True}
+            if k == "fits":
+                bb = [tuple(b) for b in q["bbox"]]
+                h, tabs = w.to_fits(bounding_box=bb, sampling=q.get("sampling", 2))
+                return {"v": [[c.keyword, _canon(c.value)] for c in h.cards if c.keyword not in ("COMMENT", "")] +
+                             [[t.name, int(t.ver), _canon(np.asarray(t.data["coordinates"]).ravel()[:60])] for t in tabs], "iter": True}
             if k == "qforward":
                 import astropy.units as u
                 r = w(*[c * u.pix for c in q["pt"]])
@@ -172,6 +177,13 @@ def _edit(w, ev, st):
         w.insert_frame(fr_, models.Shift(ev["shift"][0]) & models.Scale(ev["shift"][1]), "focal")
     elif op == "bbox":
         w.bounding_box = None if ev["v"] is None else tuple(tuple(b) for b in ev["v"])
+    elif op == "sep_instr":
+        w.insert_transform("mid", _sep_t(ev["t"]), after=ev["after"])
+    elif op == "sep_set":
+        w.set_transform(ev["from"], ev["to"], _sep_t(ev["t"]))
+    elif op == "sep_step":
+        # the public Step.transform setter: a direct assignment to a pipeline step
+        w.pipeline[ev["i"]].transform = _sep_t(ev["t"])
     elif op == "bad":
         kind = ev["kind"]
         if kind == "nonadjacent":
@@ -184,6 +196,30 @@ def _edit(w, ev, st):
             w.insert_frame("detector", models.Identity(2), "sky")
         elif kind == "not_model":
             w.set_transform("focal", "sky", 5)
+
+
+def _sep_t(spec):
+    """three separable axes, optionally coupled pairwise by a rotation"""
+    t = None
+    for a, b in zip(spec["a"], spec["b"]):
+        m = models.Scale(b) | models.Shift(a)
+        t = m if t is None else t & m
+    if spec.get("couple") == "01":
+        t = t | (models.Rotation2D(spec["angle"]) & models.Identity(1))
+    elif spec.get("couple") == "12":
+        t = t | (models.Identity(1) & models.Rotation2D(spec["angle"]))
+    return t
+
+
+def _build_sep(case):
+    import astropy.units as u
+    det = cf.CoordinateFrame(3, ("SPATIAL",) * 3, (0, 1, 2), unit=(u.pix,) * 3, name="detector")
+    world = cf.CompositeFrame([cf.SpectralFrame(unit=u.um, axes_order=(0,), name="spec"),
+                               cf.CoordinateFrame(1, ("SPATIAL",), (1,), unit=(u.m,), name="g1", axes_names=("g1",)),
+                               cf.CoordinateFrame(1, ("SPATIAL",), (2,), unit=(u.m,), name="g2", axes_names=("g2",))], name="world")
+    w = gw.WCS([(det, _sep_t(case["t1"])), ("mid", _sep_t(case["t2"])), (world, None)])
+    w.bounding_box = tuple(tuple(b) for b in case["box"])
+    return w
 
 
 def _build_units(case):
@@ -210,6 +246,8 @@ def impl(case):
     _EPOCH[0] = 0
     if case.get("kind") == "units":
         w = _build_units(case)
+    elif case.get("kind") == "sep":
+        w = _build_sep(case)
     else:
         w = S.build(case["params"], with_bbox=case.get("bbox0", True))
     steps = []
@@ -318,7 +356,7 @@ def nontrivial(case, res):
     for ev, rec in zip(case["events"], res["steps"]):
         if ev["k"] == "edit" and rec.get("ok"):
             seen_edit = True
-        if ev["k"] == "query" and ev.get("inverting") and seen_edit:
+        if ev["k"] == "query" and (ev.get("inverting") or case.get("kind") == "sep") and seen_edit:
             return True
     return False
 
@@ -338,6 +376,8 @@ def stats(case, res, st):
                 st["inverting"] += 1
     if case.get("kind") == "units":
         st["units"] += 1
+    elif case.get("kind") == "sep":
+        st["separable3"] += 1
     else:
         st["analytic0" if case["params"]["dist"] is None else "iterative0"] += 1
 
@@ -427,6 +467,38 @@ def gen(rng, tier):
                     ev["pt"] = [rng.uniform(0, 500), rng.uniform(0, 500)]
                 events.append(ev)
         yield {"params": p, "bbox0": bbox0, "events": events}
+    # separable 3-axis WCS whose coupling pattern is changed by edits (incl. direct assignment to a pipeline step) between queries
+    # that depend on the separability analysis (correlation matrix, -TAB grouping)
+    def sep_spec(coupled=None):
+        c = rng.choice([None, None, "01", "12"]) if coupled is None else (None if coupled is False else coupled)
+        return {"a": [float(rng.randint(-5, 5)) for _i in range(3)], "b": [rng.choice([0.5, 1.0, 2.0, 0.25]) for _i in range(3)],
+                "couple": c, "angle": rng.choice([30.0, 45.0, 60.0])}
+    for _ in range(10 if tier == "quick" else 300):
+        box = [[0.0, float(rng.randint(4, 9))] for _i in range(3)]
+        evs = []
+        for _e in range(rng.randint(4, 8)):
+            if rng.random() < 0.45:
+                op = rng.choice(["sep_instr", "sep_set", "sep_step", "sep_step", "bbox"])
+                if op == "sep_instr":
+                    evs.append({"k": "edit", "op": op, "t": sep_spec(rng.choice(["01", "12"])), "after": rng.random() < 0.5})
+                elif op == "sep_set":
+                    fr_, to = rng.choice([("detector", "mid"), ("mid", "world")])
+                    evs.append({"k": "edit", "op": op, "from": fr_, "to": to, "t": sep_spec()})
+                elif op == "sep_step":
+                    evs.append({"k": "edit", "op": op, "i": rng.choice([0, 1]), "t": sep_spec()})
+                else:
+                    box = [[0.0, float(rng.randint(4, 9))] for _i in range(3)]
+                    evs.append({"k": "edit", "op": "bbox", "v": box})
+            else:
+                q = rng.choice(["props", "props", "tab", "fits", "forward"])
+                ev = {"k": "query", "q": q}
+                if q == "forward":
+                    ev["pts"] = [[rng.uniform(0, 4), rng.uniform(0, 4), rng.uniform(0, 4)] for _i in range(3)]
+                if q in ("tab", "fits"):
+                    ev["bbox"] = [[0.0, float(rng.randint(3, 6))] for _i in range(3)]
+                    ev["sampling"] = rng.choice([1, 2])
+                evs.append(ev)
+        yield {"kind": "sep", "t1": sep_spec(), "t2": sep_spec(False), "box": box, "events": evs}
     for _ in range(4 if tier == "quick" else 100):
         evs = []
         for _e in range(rng.randint(2, 6)):
